@@ -2,6 +2,7 @@ SPECIFICATION Spec
 CONSTANTS
   SharedField = "none"
   MemoBound = TRUE
+  SampleKinds = TRUE
   HistLen = 3
 POSTCONDITION Written
 CHECK_DEADLOCK FALSE
